@@ -315,7 +315,8 @@ inline Result exec_c10(const Plan& plan)
         res.signature = "HARNESS:C10-needs-checked-build";
         return res;
     }
-    PlanBudget budget(plan.geti("budget_ms", 30000));
+    // generous: the budget is there to catch runaway code under test, not to race the sweep itself
+    PlanBudget budget(plan.geti("budget_ms", 180000));
     sim::Hasher fp;
     const SchemaShape& sh = *fs.drv->shape;
     Frame f = make_frame(fs);
@@ -452,6 +453,9 @@ inline Plan gen_c10_wire(u64 seed, const std::string& tier)
     p.seti("tree", (long long)(wl.next() >> 20));
     p.seti("walks", (long long)(wl.next() >> 40));
     if(fl.chance(1, 4)) p.seti("extend", 1);
+    // every (n, op) point copies the frame: keep frames small here (extensions up to 300 cover the
+    // 127/128/255/256 boundaries; the 32768/65536 ones are C03's)
+    p.seti("maxboundary", 300);
     p.set("mode", "enumerate-truncations-x-op-catalogue");
     if(fl.chance(1, 4))
     {
